@@ -463,4 +463,120 @@ recorded deviations (an element added to an empty array is lost / an internal er
 def json_merge_spec_full : Prop :=
   ∀ (b l r : JsonVal), jsonEq b l = true → ∃ m, merge3 b l r = .merged m ∧ parse m = parse (serialize r)
 
+/-! ## the refinement, where the stored implementation delegates -/
+
+/-- the in-memory route on the stored text is the reference, by the round trip -/
+theorem viaReference_refines (mode : Mode) (legs : List Leg) (d v : JsonVal) (hd : wfV d) (hv : wfV v) :
+    viaReference mode legs (serialize d) (serialize v) =
+      (match refOp mode legs d (if mode = .remove then nullLit else v) with
+        | .ok (r, ch) => .ok (serialize r, ch)
+        | .error e => .error (.ref e)) := by
+  unfold viaReference
+  rw [JsonDoc.parse_serialize d hd]
+  by_cases hm : mode = .remove
+  · simp only [hm, if_true]
+    cases refOp Mode.remove legs d nullLit with
+    | error e => rfl
+    | ok p => rfl
+  · simp only [hm, if_false, JsonDoc.parse_serialize v hv]
+    cases refOp mode legs d v with
+    | error e => rfl
+    | ok p => rfl
+
+/-- **`indexed_refines_partial`** — the refinement of DESIGN.md §6 (`IndexedDoc.op (serialize d) p v =
+serialize (JsonVal.op d p v)`) for stored-form documents, in every case where `IndexedJsonDocument`
+hands the work to the in-memory implementation: ARRAY_APPEND and ARRAY_INSERT (always), and
+SET / INSERT / REPLACE / REMOVE on a path the lexer reports as unsupported (`[last]`, `*`, `**`).
+The splice cases (plain keys / indexes) are not proved; `indexed_refines_full` is refuted. -/
+theorem indexed_refines_partial (mode : Mode) (legs : List Leg) (d v : JsonVal) (hd : wfV d) (hv : wfV v)
+    (hroot : ¬ (mode = .remove ∧ legs = []))
+    (hdel : mode = .arrayAppend ∨ mode = .arrayInsert ∨ (∃ u, legsToLoc legs rootLoc = u ∧ u matches .unsupported)) :
+    indexedOp mode legs (serialize d) (serialize v) =
+      (match refOp mode legs d (if mode = .remove then nullLit else v) with
+        | .ok (r, ch) => .ok (serialize r, ch)
+        | .error e => .error (.ref e)) := by
+  rw [← viaReference_refines mode legs d v hd hv]
+  rcases hdel with rfl | rfl | ⟨u, hu, hm⟩
+  · rfl
+  · rfl
+  · unfold indexedOp
+    have hroot' : ¬ (mode = .remove ∧ legs.isEmpty = true) := by
+      intro ⟨a, b⟩; exact hroot ⟨a, by simpa using b⟩
+    cases mode with
+    | arrayAppend => rfl
+    | arrayInsert => rfl
+    | set | insert | replace | remove =>
+      simp only [hroot', if_false]
+      rw [hu]
+      cases u <;> simp at hm
+      first
+        | rfl
+        | (have hne : ¬ (legs.isEmpty = true) := fun b => hroot' ⟨rfl, b⟩
+           simp [hne])
+
+example : (∃ u, legsToLoc [.key [0x61], .idx .last] rootLoc = u ∧ u matches .unsupported) := ⟨_, rfl, rfl⟩
+
+
+/-! ## the merge, characterised where it can be -/
+
+theorem bytesCmp_refl (a : Bytes) : bytesCmp a a = .eq := (bytesCmp_eq_iff a a).mpr rfl
+
+/-- a value has no differences with itself (the in-memory differ, any fuel, any key prefix) -/
+theorem diff_self : ∀ (f : Nat),
+    (∀ key a, (∀ s, a = .lit s → True) → diffVal f key a a = []) ∧
+    (∀ key xs, diffObj f key xs xs = []) ∧
+    (∀ key i xs, diffArr f key i xs xs = []) := by
+  intro f
+  induction f with
+  | zero =>
+    refine ⟨fun _ _ _ => rfl, fun _ xs => ?_, fun _ _ xs => ?_⟩
+    · cases xs <;> rfl
+    · cases xs <;> rfl
+  | succ f ih =>
+    obtain ⟨ihV, ihO, ihA⟩ := ih
+    refine ⟨?_, ?_, ?_⟩
+    · intro key a _
+      cases a with
+      | lit s => simp [diffVal, jsonEq]
+      | arr xs => simp [diffVal, ihA]
+      | obj kvs => simp [diffVal, ihO]
+    · intro key xs
+      cases xs with
+      | nil => rfl
+      | cons kv t =>
+        obtain ⟨k, v⟩ := kv
+        simp [diffObj, bytesCmp_refl, ihV _ v (fun _ _ => trivial), ihO]
+    · intro key i xs
+      cases xs with
+      | nil => rfl
+      | cons v t => simp [diffArr, ihV _ v (fun _ _ => trivial), ihA]
+
+/-- **`json_merge_spec_partial`, part 1 — non-objects**: when base, left or right is not an object,
+`MergeJSON` is "equal, or conflict" -/
+theorem merge_nonobject (b l r : JsonVal) (h : kindOf b ≠ .obj ∨ kindOf l ≠ .obj ∨ kindOf r ≠ .obj) :
+    merge3 b l r = if jsonEq l r then .merged (serialize l) else .conflict := by
+  have hd : mergeDecide 64 b l r = if jsonEq l r then some (.inr l) else none := by
+    rw [show (64 : Nat) = 63 + 1 from rfl, mergeDecide]
+    simp only [h, if_true]
+  simp only [merge3, hd]
+  cases jsonEq l r <;> rfl
+
+/-- **part 2 — the right side made no edit**: three objects, right equal to the base ⇒ no conflict
+and the merged document is the left one, text and all -/
+theorem merge_right_unchanged (b l : JsonVal) (hb : kindOf b = .obj) (hl : kindOf l = .obj) :
+    merge3 b l b = .merged (serialize l) := by
+  have hno : ¬ (kindOf b ≠ .obj ∨ kindOf l ≠ .obj ∨ kindOf b ≠ .obj) := by simp [hb, hl]
+  have hself : ∀ fuel, diffVal fuel [] b b = [] := fun fuel => (diff_self fuel).1 [] b (fun _ _ => trivial)
+  have hd : mergeDecide 64 b l b = some (.inl []) := by
+    rw [show (64 : Nat) = 63 + 1 from rfl, mergeDecide]
+    simp only [hno, if_false, hself, List.length_nil, Nat.add_zero]
+    cases hdl : diffVal ((serialize b).length + (serialize l).length + (serialize b).length + 8) [] b l with
+    | nil => simp [threeWay]
+    | cons x xs => simp [threeWay]
+  simp only [merge3, hd, applySteps]
+
+example : merge3 (.obj [([0x61], .lit [0x31])]) (.obj [([0x61], .lit [0x32])]) (.obj [([0x61], .lit [0x31])]) =
+    .merged [0x7b, 0x22, 0x61, 0x22, 0x3a, 0x32, 0x7d] := by
+  rw [merge_right_unchanged _ _ rfl rfl]; rfl
+
 end DoltVerif.C17
